@@ -483,7 +483,7 @@ def code_stage(pid, name, sessions, max_steps=300, timeout=3000):
     """BasicVM against the code, whole sessions: every command of a session is delivered to the real interpreter and
     executed one execute(1) at a time (interrupts after the session's `int_after` opcodes).  For every direct command
     the opcodes the interpreter's compiler and linker emitted must be the opcodes BasicVM!Compile gives for the
-    commands as the interpreter's parser understood them; for every command (pc, stack depth, run state) after every
+    commands as the interpreter's parser understood them; for every command (pc, stack depth, run state, print column, DATA pointer, number of stored variables) after every
     single execute(1) must be the model's.  A difference is not a violation of any property (another compilation
     scheme may be just as right): it is reported as drift of the implementation-level model, which then no longer
     transfers what TLC proved about it."""
@@ -622,14 +622,14 @@ VM_RULE = (" Implementation level: TLC checks that BasicVM (the code generator, 
            "memory and the stack machine with its run states, transcribed from the source) refines the abstract machine on "
            "%s -- the same responses and the same observable state at every prompt, only FOR / GOSUB frames on the stack "
            "where a line starts, every linked branch inside the code; and the harness checks that the opcodes the "
-           "interpreter compiles and its (pc, stack depth, run state) after every single execute(1) are BasicVM's for the "
+           "interpreter compiles and its (pc, stack depth, run state, print column, DATA pointer, number of stored variables) after every single execute(1) are BasicVM's for the "
            "sessions of this check (a difference is reported as drift of that model, never as a violation).")
 
 
 VM_CODE_RULE = (" Implementation level: the sessions of this check are also walked through BasicVM (the code generator, linker, "
                 "program memory and stack machine transcribed from the source; its refinement of the abstract machine is "
                 "model-checked in C01, C04, C09-C13, C17, C18, C20): the opcodes the interpreter compiles for every direct "
-                "command and its (pc, stack depth, run state) after every single execute(1) of every command must be BasicVM's "
+                "command and its (pc, stack depth, run state, print column, DATA pointer, number of stored variables) after every single execute(1) of every command must be BasicVM's "
                 "(a difference is reported as drift of that model, never as a violation).")
 
 
@@ -762,7 +762,7 @@ def check_C13(tier, seed):
         sweeps.append(d)
     st2 = validate_sessions("C13", "sweep", sweeps, timeout=3000, exhaustive=True)
     # the same sweeps walked through BasicVM: the interrupt is delivered after exactly the same number of opcodes
-    # and (pc, stack depth, run state) must agree after every execute(1), through BREAK, the inspection and CONT
+    # and (pc, stack depth, run state, print column, DATA pointer, number of stored variables) must agree after every execute(1), through BREAK, the inspection and CONT
     stc = code_stage("C13", "vm-sweep", sweeps[:: (1 if quick else 3)], max_steps=400)
     # seeded random programs: every interruption point (bounded), with inspection
     rnd = gen_sessions(seed, 25 if quick else 300, "C13r", err_rate=0.0, layout=False)
@@ -1230,6 +1230,9 @@ def check_C03(tier, seed):
     t0 = time.time()
     quick = tier == "quick"
     st0 = tlc_mc("C03", "RuntimeShell.tla", "RuntimeShell.cfg", timeout=3000)
+    # the same liveness one level down: on BasicVM (the implementation-level model bound to the code in C01) an
+    # interrupt at any opcode boundary of any program of the space reaches the prompt under weak fairness of execute
+    st0b = tlc_mc("C03", "MC_VM.tla", "MC_VM_live_%s.cfg" % tier, timeout=3000)
     st1 = shell_stage("C03", "menu", gen03.menu_sessions(seed, 400 if quick else 6000, 14))
     st2 = shell_stage("C03", "short", gen03.short_string_sessions(2 if quick else 3))
     sess = gen_sessions(seed + 31, 12 if quick else 200, "C03src")
@@ -1242,10 +1245,11 @@ def check_C03(tier, seed):
     muts = ["".join(map(chr, c["x"])) for c in lex_mutations(seed + 5, 300 if quick else 5000)]
     st3 = shell_stage("C03", "soup", gen03.soup_sessions(seed, 150 if quick else 3000, lines + muts))
     st4 = shell_stage("C03", "reply", gen03.reply_sessions(2 if quick else 4))
-    return finish("C03", tier, seed, "model_checking", [st0, st1, st2, st3, st4], t0,
+    return finish("C03", tier, seed, "model_checking", [st0, st0b, st1, st2, st3, st4], t0,
                   rule="(1) TLC checks ProtocolSafe, CacheCoherent and the liveness property Converges (after one interrupt and no "
                        "further input the prompt is reached, under weak fairness of execute) on RuntimeShell, the "
-                       "implementation-shaped model of the run states and of the terminal's calling protocol; (2) on the code: "
+                       "implementation-shaped model of the run states and of the terminal's calling protocol, and IntrConverges "
+                       "on BasicVM (an interrupt at any opcode boundary of any program of the bounded space leads to the prompt); (2) on the code: "
                        "seeded sequences over a menu of lines, direct statements, replies, interrupts, listing snapshots kept "
                        "alive across edits, LOAD / RUN / SAVE requests (every run state reached), every string up to the bound "
                        "over the lexical alphabet entered as a line, byte / token soup up to 4096 bytes and damaged programs run "
